@@ -439,6 +439,45 @@ theorem reaction_line_spec (pr : Printer) (rxn : List Char) (p : Param) (ptext :
 theorem default_precisions_guard : defaultPrecision = 5 ∧ defaultUncertPrecision = 2 ∧ strMagnitudePrecision = 3 := by
   decide
 
+/-! ## the per-substance HTML table -/
+
+/-- **table_positional_cell.** Data given positionally (list, tuple, array): for distinct substance keys the value looked up for
+the `i`-th substance is the `i`-th item of the container — with ITS magnitude and ITS unit text. -/
+theorem table_positional_cell (keys : List (List Char)) (hnd : keys.Nodup) (items : List Cell) (hlen : items.length = keys.length)
+    (i : ℕ) (hi : i < keys.length) :
+    tableElem keys (.positional items) keys[i] = .ok (items[i]'(hlen ▸ hi)) := by
+  simp [tableElem, indexOf_getElem keys hnd i hi, List.getElem?_eq_getElem (hlen ▸ hi)]
+  rfl
+
+/-- **table_rows_spec.** Whenever the table is produced, it has one row per substance **in substance order**; row `i` shows the
+html name of substance `i` and `number_to_scientific_html` (default precision; `number_to_x_spec`, `fmtG_denotes`) of the cell
+`_elem` returns for the key of substance `i` — magnitude and unit of that cell, nothing else. -/
+theorem table_rows_spec (subs : List (List Char × List Char)) (c : Container) (rows : List (List Char × List Char))
+    (h : tableRows subs c = .ok rows) :
+    rows.map Prod.fst = subs.map Prod.snd ∧
+    ∀ i (hi : i < subs.length) (hr : i < rows.length), ∃ cell,
+      tableElem (subs.map Prod.fst) c subs[i].1 = .ok cell ∧ numberToX .html none cell.mag cell.unit = .ok rows[i].2 := by
+  obtain ⟨hl, hel⟩ := mapM_ok _ subs rows h
+  have key : ∀ i (hi : i < subs.length) (hr : i < rows.length), rows[i].1 = subs[i].2 ∧ ∃ cell,
+      tableElem (subs.map Prod.fst) c subs[i].1 = .ok cell ∧ numberToX .html none cell.mag cell.unit = .ok rows[i].2 := by
+    intro i hi hr
+    have := hel i hi hr
+    cases h1 : tableElem (subs.map Prod.fst) c subs[i].1 with
+    | error e => simp [h1, bind, Except.bind] at this
+    | ok cell =>
+      cases h2 : numberToX .html none cell.mag cell.unit with
+      | error e => simp [h1, h2, bind, Except.bind] at this
+      | ok text =>
+        simp only [h1, h2, bind, Except.bind, pure, Except.pure] at this
+        injection this with this
+        rw [← this]
+        exact ⟨rfl, cell, rfl, h2⟩
+  refine ⟨?_, fun i hi hr => (key i hi hr).2⟩
+  apply List.ext_getElem (by simp [hl])
+  intro i h1 h2
+  simp only [List.getElem_map]
+  exact (key i (by simpa using h2) (by simpa using h1)).1
+
 /-! ## non-vacuity: the hypotheses are satisfiable and the statements say something on concrete inputs -/
 
 /-- 9.9996 at 4 digits carries into the next decade: record (+, 1000, 1), text "10". -/
@@ -459,6 +498,12 @@ example : floatStrWUncert (-999752) 349 3 = .ok "-999752(349)".toList ∧
     floatStrWUncert (-9997520000000000) 3490000000000 2 = .ok "-9.9975(35)e15".toList ∧
     floatStrWUncert (31416 / 10000) (29 / 1000) 1 = .ok "3.14(3)".toList ∧
     floatStrWUncert 3141600000 2900000 1 = .ok "3.142(3)e9".toList := by
+  decide +kernel
+
+/-- a list of two quantities with different prefixes: every cell keeps its own unit, rows in substance order -/
+example : perSubstanceTable [("H2O".toList, "H<sub>2</sub>O".toList), ("H+".toList, "H<sup>+</sup>".toList)]
+    (.positional [⟨277 / 5, some "M".toList⟩, ⟨35 / 10, some "mM".toList⟩]) "c".toList
+    = .ok "<table><tr><th>Substance</th>\n<th>c</th></tr>\n<tr><td>H<sub>2</sub>O</td>\n<td>55.4 M</td></tr>\n<tr><td>H<sup>+</sup></td>\n<td>3.5 mM</td></tr></table>".toList := by
   decide +kernel
 
 example : roman 1994 = "MCMXCIV".toList ∧ roman 17 = "XVII".toList ∧ roman 0 = [] := by decide +kernel
